@@ -3,10 +3,11 @@ import datetime
 import re
 from vlib import *
 
-EXTRA_MODULES = ["C15text", "C15reject"]
+EXTRA_MODULES = ["C15text", "C15reject", "C15reject2"]
 THEOREMS = [
     "C15_text_roundtrip", "C15_text_roundtrip_cfg", "C15_text_valid_literal", "C15_text_spec_accepts", "C15_text_grammar",
     "C15_text_nano_zero_digits", "C15_text_ex_wf4", "C15_text_ex_wf5", "C15_text_ex_strings",
+    "C15_text_accepts_only_valid", "C15_text_accepts_only_valid_strict_all", "C15_text_frac_fields_denote", "C15_text_fields_nine", "C15_text_fields_no_carry", "C15_text_fields_carry", "C15_text_next_second_spec", "C15_text_round_is_frac_ns", "C15_text_accepts_year_in_range_refuted", "C15_text_accepts_year_except_carry",
     "C15_text_accepts_only_literals", "C15_text_accepts_only_valid_partial", "C15_text_accepts_only_valid_strict",
     "C15_text_accepts_only_spellings_refuted", "C15_text_sign_defect", "C15_text_rejects_invalid", "C15_text_rejects_underscore",
     "C15_text_rejects_bad_char", "C15_text_ex_february", "C15_text_ex_offset_day", "C15_text_ex_case_and_sign", "C15_text_ex_accepted",
@@ -434,6 +435,10 @@ def oracle(line, go):
                     return "round trip through text '%s': expected %s" % (text, exp)
                 return None
             want = spec_parse(text)
+            got = parse_ok(go)
+            if got is not None and not (1 <= got[0] <= 9999):
+                # C15_text_accepts_year_except_carry: the only way ParseTimestamp returns a year outside 1..9999
+                return "'%s' is accepted as a timestamp in year %d, which no Ion timestamp can carry" % (text, got[0])
             if want is not None:
                 if any(F[0] > 9999 for F in want):
                     return None
@@ -524,6 +529,8 @@ def classify_case(line, m, g):
             text = bytes(unhx(t[1])).decode("latin-1")
             if g == "panic" and re.match(r"^.{19}\.\d*$", text, re.S):
                 return "text-fraction-without-offset-panic"
+            if re.match(r"^9999-12-31T23:59:59\.9{9}[5-9]\d*(Z|[+-]\d\d:\d\d)$", text) and g.startswith("ok 10000 "):
+                return "text-fraction-rounding-carries-into-year-10000"
             m2 = RE_FULL.match(text)
             if m2 and m2.group(7) and len(m2.group(7)) > 15 and g.startswith("ok"):
                 return "text-fraction-float64-rounding"
@@ -680,6 +687,11 @@ def text_catalogue(ctx):
         for hd in heads:
             for tl in tails:
                 out.add("2000-01-01T12:30:%s.%s%sZ" % (sec, hd, tl))
+    for z in ("Z", "-00:00", "+05:30", "-23:59"):
+        out.add("9999-12-31T23:59:59.9999999995" + z)          # rounds up into year 10000 (known finding)
+        out.add("9999-12-31T23:59:59.99999999949" + z)         # rounds down: stays in 9999
+        out.add("9998-12-31T23:59:59.9999999995" + z)          # carries into 9999
+        out.add("0001-01-01T00:00:00.0000000004" + z)
     for tl in tails:
         out.add("1999-12-31T23:59:59.999999999%s+01:00" % tl)
         out.add("2000-02-29T23:59:59.999999999%s-00:00" % tl)
